@@ -234,6 +234,42 @@ def hmEvaluated : List Nat → List Nat → List Int → Bool
       decide (min x ((n : Int) - x - 1) ≥ c) && hmEvaluated ns bs xs
   | _, _, _ => false
 
+/-! #### the `slack` loop itself (round 4): a transliteration of the main loop of `hitmiss<T>`, as far as
+     *which flat indices are evaluated* is concerned. `hmEvaluated` above is its closed form; the driver
+     compares the two on every `hitmiss` line (`loopok=`), `C14_hitmiss_loop_table_partial` on a finite table. -/
+
+/-- the `for d` loop inside `while (!slack)`: the first axis whose margin `min(cur[d], dim[d]-cur[d]-1)` is
+    smaller than `Bc.dim(d)/2`, as the number of output positions to zero (`size` = product of the later
+    image sides); `none` when no axis is bad (`!moved`). -/
+def hmFirstBad : List Nat → List Nat → List Int → Option Nat
+  | n :: ns, b :: bs, x :: xs =>
+    if min x ((n : Int) - x - 1) < ((b / 2 : Nat) : Int) then some (shapeSize ns) else hmFirstBad ns bs xs
+  | _, _, _ => none
+
+/-- `for (i = 0; i != N; ++i) { while (!slack) {…} --slack; evaluate i }` with fuel; state: the flat index `i`,
+    the counter `slack`, the flags written so far (reversed: `true` = evaluated, `false` = zero written
+    without evaluating). A skip writes `min(size, N - i)` zeros (`if (i == N) return`). -/
+def hmLoop (shape bshape : List Nat) (N : Nat) (lastSlack : Int) : Nat → Nat → Int → List Bool → List Bool
+  | 0, _, _, acc => acc
+  | fuel + 1, i, slack, acc =>
+    if i ≥ N then acc
+    else if slack == 0 then
+      match hmFirstBad shape bshape (unravelI shape i) with
+      | some size => hmLoop shape bshape N lastSlack fuel (i + size) 0 (List.replicate (min size (N - i)) false ++ acc)
+      | none => hmLoop shape bshape N lastSlack fuel i lastSlack acc
+    else hmLoop shape bshape N lastSlack fuel (i + 1) (slack - 1) (true :: acc)
+
+/-- which positions the loop evaluates, in C order (`slack = input.dim(last) - Bc.dim(last) + 1`; two steps per
+    position suffice as fuel) -/
+def hmLoopFlags (shape bshape : List Nat) : List Bool :=
+  let N := shapeSize shape
+  let lastSlack : Int := (shape.getLastD 0 : Int) - (bshape.getLastD 0 : Int) + 1
+  (hmLoop shape bshape N lastSlack (2 * N + 2) 0 0 []).reverse
+
+/-- the loop and its closed form agree on this image / template shape -/
+def hmLoopOk (shape bshape : List Nat) : Bool :=
+  hmLoopFlags shape bshape == (allPos shape).map (hmEvaluated shape bshape)
+
 /-- model of `hitmiss<T>` at one pixel, the entries tested in the given order. -/
 def hitmissAt (A : Img Int) (bshape : List Nat) (entries : List (List Int × Int)) (p : List Int) : Int :=
   if hmEvaluated A.shape bshape p then
@@ -323,7 +359,7 @@ def handleWith (a : Args) (shape bshape : List Nat) (bc : Array Int) : String :=
     s!"model={showBools (closeHoles A nb).toList} spec={specS} regular={if regular then 1 else 0}"
   | "hitmiss" =>
     let es := hmEntries bshape bc
-    s!"model={showInts ((allPos shape).map (hitmissAt A bshape es))} modelrev={showInts ((allPos shape).map (hitmissAt A bshape es.reverse))} spec={showInts ((allPos shape).map (hitmissSpecAt A bshape bc))} closed={showInts ((allPos shape).map (hitmissClosedAt A bshape bc))}"
+    s!"model={showInts ((allPos shape).map (hitmissAt A bshape es))} modelrev={showInts ((allPos shape).map (hitmissAt A bshape es.reverse))} spec={showInts ((allPos shape).map (hitmissSpecAt A bshape bc))} closed={showInts ((allPos shape).map (hitmissClosedAt A bshape bc))} loopok={if hmLoopOk shape bshape then 1 else 0}"
   | "hmblock" =>
     -- all binary images with index in [lo, hi) (pixel j of image `idx` = bit j of `idx`); digits, no separators
     let es := hmEntries bshape bc
@@ -331,7 +367,7 @@ def handleWith (a : Args) (shape bshape : List Nat) (bc : Array Int) : String :=
     let model := idxs.map fun idx => digits ((allPos shape).map fun p => hitmissAt (bitImg shape idx) bshape es p)
     let spec := idxs.map fun idx => digits ((allPos shape).map fun p => hitmissSpecAt (bitImg shape idx) bshape bc p)
     let closed := idxs.map fun idx => digits ((allPos shape).map fun p => hitmissClosedAt (bitImg shape idx) bshape bc p)
-    s!"model={String.join model} spec={String.join spec} closed={String.join closed}"
+    s!"model={String.join model} spec={String.join spec} closed={String.join closed} loopok={if hmLoopOk shape bshape then 1 else 0}"
   | "holesblock" =>
     let nb := neighbours bshape bc
     let idxs := (List.range (a.nat "hi" - a.nat "lo")).map (· + a.nat "lo")
